@@ -686,6 +686,57 @@ def tableLineVro (vro : List Str) (lineVro : Option (List Str)) (lineTags : List
     | none => lineTags ++ vro
   if keep then kKeep :: base else base
 
+/-! ## the lines of one table: `pushStack("vro", requested)` … `popStack("vro")` (table.py l.1010-1025)
+
+The state threaded through the lines is the command's VRO (`Eups.preferredTags`).  For each
+`setupRequired` / `setupOptional` line `processArgs` builds the list in force from a *copy* of it
+(`getPreferredTags()`), `pushStack` saves another copy and installs the requested list, the
+dependency is set up, and `popStack` puts the saved copy back — before a failed required dependency
+raises.  So a line's `-k` / `-t` / `--vro` is in force for that line only. -/
+
+structure TableLine where
+  name : Str
+  version : Option Str
+  vexpr : Option Str
+  lineVro : Option (List Str)
+  lineTags : List Str
+  lineKeep : Bool
+  optional : Bool
+  /-- `alreadySetupProducts.get(name)` when the line is reached -/
+  already : Option (Prod × Option Str)
+deriving Repr
+
+inductive LineOut where
+  | setUp (h : Hit)
+  | failed            -- not found, or any exception inside the dependency's setup
+deriving DecidableEq, Repr
+
+/-- the outcome of one line when `vro` is the command's VRO at that moment -/
+def lineOutcome (C : Ctx) (keep : Bool) (flavors : List Str) (vro : List Str) (l : TableLine) : LineOut :=
+  let inForce := tableLineVro vro l.lineVro l.lineTags l.lineKeep
+  let r : Req := { name := l.name, version := l.version, vexpr := l.vexpr, depth := 1, flavor := [],
+                   ignoreVersions := false, already := l.already }
+  match resolve C r keep inForce flavors with
+  | .ok (some h) => .setUp h
+  | _ => .failed
+
+structure TableRun where
+  outs : List LineOut       -- one per line reached
+  raised : Bool             -- a required dependency failed: the remaining lines are not reached
+  vro : List Str            -- the command's VRO afterwards
+deriving Repr
+
+def runTable (C : Ctx) (keep : Bool) (flavors : List Str) : List Str → List TableLine → TableRun
+  | vro, [] => ⟨[], false, vro⟩
+  | vro, l :: rest =>
+    let saved := vro                                   -- pushStack("vro", ..) keeps a copy
+    let out := lineOutcome C keep flavors vro l        -- the requested list is in force for this setup only
+    let vro' := saved                                  -- popStack("vro")
+    if out == .failed && !l.optional then ⟨[out], true, vro'⟩
+    else
+      let r := runTable C keep flavors vro' rest
+      ⟨out :: r.outs, r.raised, r.vro⟩
+
 /-! ## a small concrete order for the correspondence runs and the examples
 
 Dotted decimal versions (`1.0`, `1.10`, `2.0.1`): components compared as numbers, a proper prefix
